@@ -51,9 +51,16 @@ func eqSet(p string, a, b paging.Set) string {
 }
 
 func genDelay(t *rapid.T) delay.Delay {
+	tm := genTimez().Draw(t, "stamp")
+	if !tm.IsZero() && rapid.IntRange(0, 4).Draw(t, "lmt") == 0 {
+		// the same instant in a zone whose offset is not a whole number of
+		// minutes (local mean time of the tz database: Amsterdam before 1937 is
+		// +00:19:32); the stamp is written in UTC, so the instant survives
+		tm = tm.In(time.FixedZone("LMT", rapid.SampledFrom([]int{19*60 + 32, -(4*3600 + 56*60 + 2), 1, -59, 5*3600 + 53*60 + 28}).Draw(t, "offSec")))
+	}
 	return delay.Delay{
 		From:   genJIDz().Draw(t, "from"),
-		Time:   genTimez().Draw(t, "stamp"),
+		Time:   tm,
 		Reason: genOpt().Draw(t, "reason"),
 	}
 }
